@@ -416,6 +416,30 @@ func Preds(seed uint64, n int) *Out {
 			}
 		}
 	}
+	// --- time: instants far apart (outside what int64 nanoseconds since 1970 can express, and
+	// exactly 2^64 ns apart), every ordered pair
+	far := []time.Time{
+		time.Date(1, 1, 2, 0, 0, 0, 0, time.UTC), time.Date(1600, 2, 29, 1, 2, 3, 4, time.UTC),
+		time.Date(1677, 9, 21, 0, 12, 43, 145224191, time.UTC), time.Date(1677, 9, 21, 0, 12, 43, 145224193, time.UTC),
+		time.Date(1969, 12, 31, 23, 59, 59, 999999999, time.UTC), time.Unix(0, 0).UTC(), time.Unix(1000000000, 5).UTC(),
+		time.Unix(1000000000+18446744073, 5+709551616).UTC(), time.Unix(1000000000-18446744073, 5-709551616+1000000000).Add(-time.Second).UTC(),
+		time.Date(2262, 4, 11, 23, 47, 16, 854775807, time.UTC), time.Date(2262, 4, 11, 23, 47, 16, 854775808, time.UTC),
+		time.Date(2300, 1, 1, 0, 0, 0, 0, time.FixedZone("A", 3600)), time.Date(9999, 12, 31, 23, 59, 59, 0, time.UTC),
+	}
+	for _, ref := range far {
+		for _, v := range far {
+			ref, v := ref, v
+			pass := func(build func(s *z.TimeSchema)) bool {
+				s := z.Time()
+				build(s)
+				vv := v
+				return len(s.Validate(&vv)) == 0
+			}
+			add("time.after", "(BTimeAfter "+eng.CoqTime(ref)+")", false, "(DTime "+eng.CoqTime(v)+")", pass(func(s *z.TimeSchema) { s.After(ref) }))
+			add("time.before", "(BTimeBefore "+eng.CoqTime(ref)+")", false, "(DTime "+eng.CoqTime(v)+")", pass(func(s *z.TimeSchema) { s.Before(ref) }))
+			add("time.eq", "(BTimeEq "+eng.CoqTime(ref)+")", false, "(DTime "+eng.CoqTime(v)+")", pass(func(s *z.TimeSchema) { s.EQ(ref) }))
+		}
+	}
 	// --- slices
 	for k := 0; k <= 4; k++ {
 		for l := 0; l <= 5; l++ {
